@@ -21,7 +21,7 @@ vlib.standard_check({
     "exe": "gv_c08",
     "harness": "c03",
     "streams": {
-        "quick": [[1500, "conc", 9], [500, "concw", 9], [1000, "op", 6]],
+        "quick": [[8000, "conc", 9], [2500, "concw", 9], [3000, "op", 6]],
         "thorough": [[120000, "conc", 12], [30000, "concw", 12], [50000, "op", 8]],
     },
     "search": [[20000, "conc", 12], [5000, "concw", 12]],
